@@ -183,45 +183,7 @@ def chunk_headers(ctx, rule='chunk-headers'):
     r.floor(rule, 'chunk_constructions', n, 2)
 
 
-class _NoEval(Exception):
-    pass
-
-
-def _eval(sym, leaf):
-    """integer value of an extracted arithmetic expression; `leaf(sym)` supplies the value of recognised inputs"""
-    v = leaf(sym)
-    if v is not None:
-        return v
-    k = sym[0]
-    if k == 'k':
-        try:
-            return int(sym[1])
-        except ValueError:
-            raise _NoEval(str(sym)[:60])
-    if k == 'proj' and sym[2] == '.0':
-        return _eval(sym[1], leaf)
-    if k == 'cast':
-        x = _eval(sym[1], leaf)
-        to = sym[-1]
-        bits = {'u8': 8, 'u16': 16, 'u32': 32, 'u64': 64, 'usize': 64}.get(to)
-        if bits is None:
-            raise _NoEval('cast to ' + str(to))
-        return x & ((1 << bits) - 1)
-    if k == 'bin':
-        a, b = _eval(sym[2], leaf), _eval(sym[3], leaf)
-        op = sym[1].replace('WithOverflow', '')
-        if op == 'Add': return a + b
-        if op == 'Sub':
-            if a - b < 0:
-                raise _NoEval('underflow')
-            return a - b
-        if op == 'Mul': return a * b
-        if op == 'BitAnd': return a & b
-        if op == 'BitOr': return a | b
-        if op == 'Shr': return a >> b
-        if op == 'Shl': return a << b
-        raise _NoEval('op ' + sym[1])
-    raise _NoEval(str(sym)[:60])
+from ..rulelib import NoEval as _NoEval, eval_sym as _eval
 
 
 def padding_arithmetic(ctx, rule='padding-arithmetic'):
